@@ -143,7 +143,8 @@ let run_tv log out =
     | ["NewPhase"; p; a; b] -> Some (M.CbNewPhase (phase_of_int (int_of_string p), q_of a b))
     | ["AMT"] -> Some M.CbAfterMicroTick
     | ["Commit"] -> Some M.CbCommit
-    | ["Reset"; n; v] -> Some (M.CbReset (cstr n, v = "1"))
+    | ["Reset"; n; v] | ["Reset"; n; v; _] -> Some (M.CbReset (cstr n, v = "1"))   (* v: level read back from the simulator *)
+    | "RstDecl" :: _ -> None
     | ["Set"; n; v] -> Some (M.CbSet (cstr n, bv_of_text v))
     | ["Read"; n; b; v] -> Some (M.CbRead (cstr n, b = "1", rvec_of_text v))
     | ["Destroy"; a; b] -> Some (M.CbDestroy (q_of a b))
